@@ -23,6 +23,17 @@
 //                The deepest frame seen from the underlying allocator's free callback is recorded as evidence
 //                (the unchanged code stays below 16 KB whatever the list length).
 //
+//   * re-entrancy — sections reentrant_matrix / reentrant_histories: the recording underlying allocator (alloc and free
+//                callback) and the output sink that receives the unknown-buffer warning issue ONE nested cache operation
+//                (a request, the release of a buffer the script holds, the release of a foreign pointer; depth 1) while the
+//                cache is in the middle of alloc / dealloc / printing the warning — what happens when the cache is the global
+//                string allocator and the underlying allocator or the test output uses SimpleString itself. The shadow model
+//                applies the nested operation at the point where it happens; the same clauses are judged. Blocks and buffers
+//                born or returned inside a nested operation carry the position in their violation keys (…nested-in=<outer>).
+//                Returned blocks are NOT poisoned in these sections (they are still held until the end of the case): a list
+//                that keeps a returned block is then recognised by the ledger (second return, with the position in the key)
+//                instead of an anonymous sanitizer abort.
+//
 // Scoping decisions (see the final report of this check):
 //   * a live buffer released with a size of ANOTHER class (or across the 256 boundary, or an uncached buffer with
 //     another size) is a caller error the statement does not quantify over: the buffer goes to "limbo" — the
@@ -69,18 +80,37 @@ static inline char pat(uint32_t id, size_t i) { return (char) (1 + (id * 37u + (
 
 // ---------------------------------------------------------------- output meter
 static TestTestingFixture* g_fx = nullptr;
+static StringBufferTestOutput* g_hook_out = nullptr;     // re-entrant histories inside a test run: the output of the harness's own runner
 static std::string g_cap;
-static void capture_fputs(const char* s, PlatformSpecificFile) { if (s) g_cap.append(s); }
-static size_t out_len() { return g_fx ? strlen(g_fx->getOutput().asCharString()) : g_cap.size(); }
+static void nest_hook(char cb);
+static void capture_fputs(const char* s, PlatformSpecificFile) { if (s) g_cap.append(s); nest_hook('p'); }
+static size_t out_len() { return g_hook_out ? strlen(g_hook_out->getOutput().asCharString()) : g_fx ? strlen(g_fx->getOutput().asCharString()) : g_cap.size(); }
 static std::string out_from(size_t pos) {
-    std::string all = g_fx ? std::string(g_fx->getOutput().asCharString()) : g_cap;
+    std::string all = g_hook_out ? std::string(g_hook_out->getOutput().asCharString()) : g_fx ? std::string(g_fx->getOutput().asCharString()) : g_cap;
     return pos <= all.size() ? all.substr(pos) : std::string();
 }
+// a test output that can call back into the cache while it prints (the sink of the unknown-buffer warning inside a test run)
+struct HookOutput : public StringBufferTestOutput {
+    virtual ~HookOutput() {}
+    virtual void printBuffer(const char* s) override { StringBufferTestOutput::printBuffer(s); nest_hook('p'); }
+};
 
 // ---------------------------------------------------------------- world
 enum St { LIVE = 0, LIMBO = 1, RELEASED = 2, GONE = 3 };
-struct Buf { char* p; size_t req; size_t usable; int cls; int st; uint32_t id; bool filled; };
-struct UBlock { char* p; size_t n; int owner; bool handed; bool reported; };
+struct Buf { char* p; size_t req; size_t usable; int cls; int st; uint32_t id; bool filled; const char* born; };   // born: position of the nested request that produced it (NULL: a top-level request)
+struct UBlock { char* p; size_t n; int owner; bool handed; bool reported; const char* tag; const char* freed_tag; };   // tag / freed_tag: obtained / returned inside a nested operation at that position
+struct Op;
+struct Nest {                  // the one nested operation of the current top-level operation
+    bool armed = false;        // waiting for the callback with ordinal `at`
+    bool running = false;      // the nested operation is executing right now
+    bool fired = false;
+    const Op* op = nullptr;
+    int seen = 0;              // callbacks (alloc, free, print) seen since the top-level operation started
+    const char* tag = "";      // position: what the cache was doing
+    int outer_cls = -1;
+    int slot = -1;             // script buffer number reserved for a nested request
+    size_t out_bytes = 0;      // output produced while the nested operation ran (accounted for by the nested operation itself)
+};
 enum { OWNER_CACHE = 0, OWNER_FOREIGN = 1 };
 
 struct World;
@@ -108,6 +138,7 @@ struct Rec : public TestMemoryAllocator {
     std::map<uintptr_t, UBlock> dead;
     int owner_now = OWNER_CACHE;
     uint64_t n_alloc = 0, n_free = 0;
+    bool poison = true;         // returned blocks are poisoned (not in the re-entrant sections, see the head of the file)
     Rec() : TestMemoryAllocator("C18 recorder", "rec-alloc", "rec-free") {}
     virtual ~Rec() {}
     virtual char* alloc_memory(size_t size, const char*, size_t) override;
@@ -130,7 +161,7 @@ struct Rec : public TestMemoryAllocator {
     }
     void cleanup() {
         for (auto& kv : live) free(kv.second.p);
-        for (auto& kv : dead) { VF_UNPOISON(kv.second.p, kv.second.n ? kv.second.n : 1); free(kv.second.p); }
+        for (auto& kv : dead) { if (poison) VF_UNPOISON(kv.second.p, kv.second.n ? kv.second.n : 1); free(kv.second.p); }
         live.clear(); dead.clear();
     }
 };
@@ -150,10 +181,16 @@ struct World {
     std::set<std::string> seen_keys;
     uint32_t next_id = 1;
     size_t max_used = 0;
+    Nest nest;
+    int warning_in_progress = 0;           // a nested operation is running inside the print of the warning
+
+    void viol(const std::string& key, const std::string& detail) {
+        std::string k = nest.running && key.find("nested-in=") == std::string::npos ? key + ":nested-in=" + nest.tag : key;
+        if (seen_keys.insert(k).second) c->violation(k, nest.running ? detail + " (inside an operation nested in " + nest.tag + ")" : detail);
+    }
 
     explicit World(vf::Ctx* ctx) : c(ctx) { for (int i = 0; i < 6; i++) interior_released[i] = false; bufs.reserve(512); }
 
-    void viol(const std::string& key, const std::string& detail) { if (seen_keys.insert(key).second) c->violation(key, detail); }
     void count(const std::string& n, uint64_t k = 1) { c->count(n, k); }
 
     void drop_from_used(int idx) {
@@ -215,7 +252,7 @@ struct World {
     // a buffer has just been handed out
     int on_alloc(char* p, size_t req, bool do_fill) {
         int cls = class_of(req);
-        Buf nb; nb.p = p; nb.req = req; nb.usable = req; nb.cls = cls; nb.st = LIVE; nb.id = next_id++; nb.filled = false;
+        Buf nb; nb.p = p; nb.req = req; nb.usable = req; nb.cls = cls; nb.st = LIVE; nb.id = next_id++; nb.filled = false; nb.born = nest.running ? nest.tag : nullptr;
         if (!p) {
             viol(std::string("handed-out:null:class=") + CLS[cls], "alloc(" + std::to_string(req) + ") returned NULL");
             nb.st = GONE; bufs.push_back(nb); return (int) bufs.size() - 1;
@@ -300,14 +337,15 @@ struct World {
             UBlock& b = kv.second;
             if (b.owner != OWNER_CACHE || b.reported) continue;
             b.reported = true;
-            if (b.handed) viol(std::string(what) + ":not-returned:buffer-block:class=" + CLS[class_of(b.n)], "a " + std::to_string(b.n) + "-byte buffer block obtained from the allocator was not returned");
-            else viol(std::string(what) + ":not-returned:bookkeeping-block:size=" + std::to_string(b.n), "a " + std::to_string(b.n) + "-byte bookkeeping block obtained from the allocator was not returned");
+            std::string nested = b.tag ? std::string(":obtained-for-request-nested-in=") + b.tag : std::string();
+            if (b.handed) viol(std::string(what) + ":not-returned:buffer-block:class=" + CLS[class_of(b.n)] + nested, "a " + std::to_string(b.n) + "-byte buffer block obtained from the allocator was not returned");
+            else viol(std::string(what) + ":not-returned:bookkeeping-block:size=" + std::to_string(b.n) + nested, "a " + std::to_string(b.n) + "-byte bookkeeping block obtained from the allocator was not returned");
         }
     }
     void check_after_clearCache() {
         for (auto& kv : by_ptr) {
             Buf& b = bufs[kv.second];
-            if (b.st == RELEASED) viol(std::string("clearCache:released-buffer-not-returned:class=") + CLS[b.cls], "buffer #" + std::to_string(b.id) + " (requested " + std::to_string(b.req) + ") was released earlier and is still held after clearCache");
+            if (b.st == RELEASED) viol(std::string("clearCache:released-buffer-not-returned:class=") + CLS[b.cls] + (b.born ? std::string(":buffer-from-request-nested-in=") + b.born : std::string()), "buffer #" + std::to_string(b.id) + " (requested " + std::to_string(b.req) + ") was released earlier and is still held after clearCache");
         }
     }
     size_t cache_owned_blocks() { size_t n = 0; for (auto& kv : rec.live) if (kv.second.owner == OWNER_CACHE) n++; return n; }
@@ -319,7 +357,9 @@ char* Rec::alloc_memory(size_t size, const char*, size_t) {
     if (!p) { fprintf(stderr, "harness: out of memory\n"); _exit(2); }
     memset(p, 0xCD, size);
     UBlock b; b.p = p; b.n = size; b.owner = owner_now; b.handed = false; b.reported = false;
+    b.tag = W && W->nest.running ? W->nest.tag : nullptr; b.freed_tag = nullptr;
     live[(uintptr_t) p] = b;
+    nest_hook('a');
     return p;
 }
 void Rec::free_memory(char* memory, size_t size, const char*, size_t) {
@@ -328,7 +368,10 @@ void Rec::free_memory(char* memory, size_t size, const char*, size_t) {
     auto it = live.find((uintptr_t) memory);
     if (it == live.end()) {
         if (!memory) W->viol(std::string("underlying-free:null:op=") + W->op, "free_memory(NULL) reached the underlying allocator");
-        else if (dead.count((uintptr_t) memory)) W->viol(std::string("underlying-free:double:op=") + W->op, "a block of " + std::to_string(dead[(uintptr_t) memory].n) + " bytes was returned to the underlying allocator a second time");
+        else if (dead.count((uintptr_t) memory)) {
+            const UBlock& d = dead[(uintptr_t) memory];
+            W->viol(std::string("underlying-free:double:op=") + W->op + (d.freed_tag ? std::string(":first-returned-by-release-nested-in=") + d.freed_tag : std::string()), "a block of " + std::to_string(d.n) + " bytes was returned to the underlying allocator a second time");
+        }
         else W->viol(std::string("underlying-free:unknown-pointer:op=") + W->op, "a pointer the underlying allocator never handed out (or an interior pointer) was returned to it");
         return;
     }
@@ -336,8 +379,10 @@ void Rec::free_memory(char* memory, size_t size, const char*, size_t) {
     if (b.owner == OWNER_CACHE && size != b.n) W->count(size == 0 ? "underlying_free_called_with_size_0" : "underlying_free_called_with_other_size");
     live.erase(it);
     W->on_underlying_free(b);
+    b.freed_tag = W->nest.running ? W->nest.tag : nullptr;
     dead[(uintptr_t) b.p] = b;
-    VF_POISON(b.p, b.n ? b.n : 1);
+    if (poison) VF_POISON(b.p, b.n ? b.n : 1);
+    nest_hook('f');
 }
 
 // ---------------------------------------------------------------- CPU budget per case
@@ -445,7 +490,13 @@ static long ss_run(std::function<void()> fn) {
 }
 
 // ---------------------------------------------------------------- scripts for the direct sections
-struct Op { char k; int a; int b; int c; };   // kind, operands (R/W: c = 1 -> the release runs on the small stack when the script asks for one)
+struct Op {
+    char k; int a; int b; int c;   // kind, operands (R/W: c = 1 -> the release runs on the small stack when the script asks for one)
+    // the operation nested in this one (re-entrant sections): issued from callback number `nat` (0, 1: the underlying allocator's
+    // alloc / free callbacks and the print of the warning, counted from the start of this operation) — nk: 0 none |
+    // 'A' request of na bytes | 'R' release of script buffer #na with its true size | 'F' release of foreign buffer na with size nb
+    char nk = 0; int na = 0; int nb = 0; int nat = 0;
+};
 // A size | R idx | W idx size | X idx size | F fidx size | I idx off size | S idx | C | K | V | Q size
 struct Script {
     std::vector<Op> ops;
@@ -454,6 +505,7 @@ struct Script {
     bool fixture = false;    // run inside a TestTestingFixture test (warning goes to its output)
     bool global = false;     // drive the allocator of a GlobalSimpleStringCache (alloc / release only; the ending is its destruction)
     bool small_stack = false;   // clearCache / clearAll / destruction and the releases marked c = 1 run on the small stack
+    bool reentrant = false;     // operations carry nested operations; fixture = inside a test run of the harness's own runner (hookable output)
     const char* long_list = ""; // long-list histories: which list is the long one
     std::string summary;     // long-list histories: compact description (text() has tens of thousands of operations)
     std::string text() const {
@@ -468,6 +520,14 @@ struct Script {
             case 'I': snprintf(b, sizeof b, "I#%d+%d:%d ", o.a, o.b, o.c); break;
             default: snprintf(b, sizeof b, "%c ", o.k); break;
             }
+            if (o.nk) {
+                char n[48];
+                if (o.nk == 'A') snprintf(n, sizeof n, "[@%d:A%d] ", o.nat, o.na);
+                else if (o.nk == 'R') snprintf(n, sizeof n, "[@%d:R#%d] ", o.nat, o.na);
+                else snprintf(n, sizeof n, "[@%d:F%d:%d] ", o.nat, o.na, o.nb);
+                size_t L = strlen(b); if (L && b[L - 1] == ' ') b[L - 1] = 0;
+                s += b; s += n; continue;
+            }
             s += b;
         }
         return s;
@@ -475,9 +535,10 @@ struct Script {
     std::string json() const {
         return vf::J().k("ops", summary.empty() ? text() : summary).k("n_ops", (unsigned long) ops.size())
             .k("ending", global ? "destroy the GlobalSimpleStringCache" : ending == 0 ? "release-all,clearCache,clearAll,destroy" : ending == 1 ? "clearAll,destroy" : "destroy-without-clear")
-            .k("via", global ? "GlobalSimpleStringCache::getAllocator" : adaptor ? "SimpleStringCacheAllocator" : "SimpleStringInternalCache").k("output", fixture ? "fixture" : "outside-test-run")
+            .k("via", global ? "GlobalSimpleStringCache::getAllocator" : adaptor ? "SimpleStringCacheAllocator" : "SimpleStringInternalCache").k("output", fixture ? (reentrant ? "test run with an output that can call back into the cache" : "fixture") : "outside-test-run")
             .k("list_length_dependent_operations_on", small_stack ? "a thread with a 128 KB stack" : "the main stack")
-            .k("legend", "A<size> alloc (buffers are numbered #0.. in order of allocation); R#i release with the true size; W#i:s release with another size of the same class; X#i:s release with a size of another class; F<k>:s release foreign buffer k; I#i+off:s release interior pointer; S#i release again; C clearCache; K clearAllIncludingCurrentlyUsedMemory; V verify patterns; Q<size> hasFreeBlocksOfSize").str();
+            .k("legend", "A<size> alloc (buffers are numbered #0.. in order of allocation); R#i release with the true size; W#i:s release with another size of the same class; X#i:s release with a size of another class; F<k>:s release foreign buffer k; I#i+off:s release interior pointer; S#i release again; C clearCache; K clearAllIncludingCurrentlyUsedMemory; V verify patterns; Q<size> hasFreeBlocksOfSize"
+               "; <op>[@k:<nested op>] the nested operation is issued from inside callback number k (underlying alloc / free callbacks and the print of the warning, counted from 0) of <op>; a nested request is numbered before the request it is nested in").str();
     }
 };
 
@@ -589,6 +650,7 @@ struct Exec {
     TestMemoryAllocator* string_alloc_before = nullptr;
     size_t len_used = 0, len_free = 0, len_unc = 0;     // model's list lengths, measured before a list-length dependent operation
     bool release_on_small_stack = false;
+    int reserved_slot = -1;
     std::vector<int> idx_of;            // script buffer number -> index in w.bufs
     char* foreign[N_FOREIGN]; size_t flen[N_FOREIGN];
     char stack_foreign[40];
@@ -619,17 +681,17 @@ struct Exec {
     }
 
     void expect_silent(size_t o0, const char* opname) {
-        if (out_len() != o0) w.viol(std::string("output-during:") + opname, std::string("the cache printed during ") + opname + ": " + out_from(o0).substr(0, 200));
+        if (out_len() - w.nest.out_bytes != o0) w.viol(std::string("output-during:") + opname, std::string("the cache printed during ") + opname + ": " + out_from(o0).substr(0, 200));
     }
 
     // kind: 0 known, 1 ambiguous (warning allowed, not demanded), 2 unknown (first must warn, later must not)
     void release(char* p, size_t size, int kind, const char* shape, const std::string& content) {
         size_t o0 = out_len();
-        int before = w.warnings;
+        int before = w.warnings + w.warning_in_progress;
         w.op = "dealloc";
         if (release_on_small_stack) { measure(); heavy("release", !strcmp(shape, "uncached") ? "uncached-list" : "used-list", [&] { do_dealloc(p, size); }); }
         else do_dealloc(p, size);
-        bool warn = out_len() > o0;
+        bool warn = out_len() - (w.nest.running ? 0 : w.nest.out_bytes) > o0;
         if (warn) {
             w.warnings++;
             std::string t = out_from(o0);
@@ -647,6 +709,83 @@ struct Exec {
             if (warn && before >= 1) w.viol(std::string("warning:repeated:") + shape, "a second warning was printed by the same cache");
             w.count(before == 0 ? "unknown_release_first" : "unknown_release_after_warning");
         }
+    }
+
+    // release of a buffer in use with a size of its own class (script operations R / W, the release-all ending, nested releases)
+    void release_live(int bi, size_t size, bool true_size, bool marks_nontrivial, bool on_small_stack) {
+        vf::Ctx& c = *w.c;
+        Buf b = w.bufs[(size_t) bi];
+        w.verify_buf(bi, "before its release");
+        int pos = w.used_pos(bi);
+        std::string shape = b.cls == 5 ? (s.reentrant ? (pos == 0 ? "uncached:newest" : "uncached:older") : "uncached") : pos == 0 ? "head-of-used-list" : "interior-of-used-list";
+        if (b.born) shape = std::string(b.cls == 5 ? "uncached" : "cached") + ":buffer-from-request-nested-in=" + b.born;
+        // the cache owns it from now on
+        { auto it = w.live_iv.find((uintptr_t) b.p); if (it != w.live_iv.end() && it->second == bi) w.live_iv.erase(it); }
+        w.drop_from_used(bi);
+        w.bufs[(size_t) bi].st = RELEASED;
+        if (pos > 0) { if (marks_nontrivial) w.interior_released[b.cls] = true; c.count(std::string("release_interior_class_") + CLS[b.cls]); }
+        else c.count(std::string("release_head_class_") + CLS[b.cls]);
+        c.count(true_size ? "op_release_true_size" : "op_release_other_size_same_class");
+        release_on_small_stack = on_small_stack;
+        release(b.p, size, 0, shape.c_str(), "");
+        release_on_small_stack = false;
+    }
+
+    // ------------------------------------------------------------ re-entrancy
+    // arm the nested operation of a top-level operation; `tag` names what the cache will be doing when it arrives
+    void arm(const Op& o, const char* tag, int outer_cls) {
+        w.nest = Nest();
+        if (!o.nk) return;
+        // tooling only (never set by the check itself): C18_NO_NESTING_IN=<position> leaves out the nested operations at one position, to
+        // look at the remaining positions of a tree that is known to fail at that one
+        static const char* skip = getenv("C18_NO_NESTING_IN");
+        if (skip && !strcmp(skip, tag)) { w.c->count("nested_operation_left_out_by_C18_NO_NESTING_IN"); return; }
+        w.nest.armed = true; w.nest.op = &o; w.nest.tag = tag; w.nest.outer_cls = outer_cls;
+        w.nest.slot = reserved_slot;
+        w.c->count("nested_operations_scripted");
+    }
+    void disarm() {
+        if (w.nest.op && !w.nest.fired) w.c->count(std::string("nested_operation_not_reached_in_") + w.nest.tag);
+        w.nest.armed = false; w.nest.running = false;
+    }
+    // called from the callback: the cache is in the middle of the top-level operation
+    void run_nested(const Op& o, char cb) {
+        vf::Ctx& c = *w.c;
+        const char* saved_op = w.op;
+        std::string where = std::string(w.nest.tag) + (cb == 'a' ? ":alloc-callback-" : cb == 'f' ? ":free-callback-" : ":print-callback-") + std::to_string(o.nat);
+        c.count("nested_operations_executed");
+        c.count(g_hook_out ? "nested_operations_inside_a_test_run" : "nested_operations_outside_a_test_run");
+        c.count(adaptor ? "nested_operations_via_adaptor" : "nested_operations_via_cache");
+        c.count("nested_in_" + where);
+        switch (o.nk) {
+        case 'A': {
+            size_t o0 = out_len();
+            w.op = "alloc";
+            char* p = do_alloc((size_t) o.na);
+            if (out_len() != o0) w.viol("output-during:alloc", "the cache printed during alloc: " + out_from(o0).substr(0, 200));
+            int bi = w.on_alloc(p, (size_t) o.na, true);
+            if (w.nest.slot >= 0) idx_of[(size_t) w.nest.slot] = bi;
+            c.count(std::string("op_alloc_class_") + CLS[class_of((size_t) o.na)]);
+            c.count(std::string(class_of((size_t) o.na) == w.nest.outer_cls ? "nested_request_same_list_in_" : "nested_request_other_list_in_") + w.nest.tag);
+            break;
+        }
+        case 'R': {
+            int bi = o.na < (int) idx_of.size() ? idx_of[(size_t) o.na] : -1;
+            if (bi < 0 || w.bufs[(size_t) bi].st != LIVE) { c.count("nested_release_skipped_buffer_no_longer_usable"); break; }
+            int cls = w.bufs[(size_t) bi].cls;
+            const char* which = cls != w.nest.outer_cls ? "nested_release_other_list_in_" : w.used_pos(bi) == 0 ? "nested_release_same_list_newest_in_" : "nested_release_same_list_older_in_";
+            c.count(std::string(which) + w.nest.tag);
+            release_live(bi, w.bufs[(size_t) bi].req, true, true, false);
+            break;
+        }
+        case 'F': {
+            c.count("op_release_foreign");
+            c.count(std::string("nested_foreign_release_in_") + w.nest.tag);
+            release(foreign[o.na], (size_t) o.nb, 2, o.na < 5 ? "foreign-heap" : o.na == 5 ? "foreign-static" : "foreign-stack", std::string(foreign[o.na]));
+            break;
+        }
+        }
+        w.op = saved_op;
     }
 
     void run() {
@@ -676,11 +815,16 @@ struct Exec {
         }
 
         for (const Op& o : s.ops) {
+            w.nest = Nest();
+            reserved_slot = -1;
+            if (o.nk == 'A') { reserved_slot = (int) idx_of.size(); idx_of.push_back(-1); }   // a nested request is numbered before the operation it is nested in, whether or not it happens
             switch (o.k) {
             case 'A': {
                 size_t o0 = out_len();
                 w.op = "alloc";
+                arm(o, class_of((size_t) o.a) == 5 ? "alloc:uncached" : "alloc:cached", class_of((size_t) o.a));
                 char* p = do_alloc((size_t) o.a);
+                disarm();
                 expect_silent(o0, "alloc");
                 idx_of.push_back(w.on_alloc(p, (size_t) o.a, true));
                 c.count(std::string("op_alloc_class_") + CLS[class_of((size_t) o.a)]);
@@ -688,26 +832,18 @@ struct Exec {
             }
             case 'R': case 'W': {
                 int bi = idx_of[(size_t) o.a];
+                if (bi < 0) { c.count("op_skipped_nested_request_did_not_happen"); break; }
                 Buf b = w.bufs[(size_t) bi];
                 if (b.st != LIVE) { c.count("op_skipped_buffer_no_longer_usable"); break; }
-                w.verify_buf(bi, "before its release");
                 size_t size = o.k == 'R' ? b.req : (size_t) o.b;
-                int pos = w.used_pos(bi);
-                const char* shape = b.cls == 5 ? "uncached" : pos == 0 ? "head-of-used-list" : "interior-of-used-list";
-                // the cache owns it from now on
-                { auto it = w.live_iv.find((uintptr_t) b.p); if (it != w.live_iv.end() && it->second == bi) w.live_iv.erase(it); }
-                w.drop_from_used(bi);
-                w.bufs[(size_t) bi].st = RELEASED;
-                if (pos > 0) { w.interior_released[b.cls] = true; c.count(std::string("release_interior_class_") + CLS[b.cls]); }
-                else c.count(std::string("release_head_class_") + CLS[b.cls]);
-                c.count(o.k == 'R' ? "op_release_true_size" : "op_release_other_size_same_class");
-                release_on_small_stack = s.small_stack && o.c == 1;
-                release(b.p, size, 0, shape, "");
-                release_on_small_stack = false;
+                arm(o, b.cls != 5 ? "dealloc:cached" : w.used_pos(bi) == 0 ? "dealloc:uncached:newest" : "dealloc:uncached:older", b.cls);
+                release_live(bi, size, o.k == 'R', true, s.small_stack && o.c == 1);
+                disarm();
                 break;
             }
             case 'X': {
                 int bi = idx_of[(size_t) o.a];
+                if (bi < 0) { c.count("op_skipped_nested_request_did_not_happen"); break; }
                 Buf b = w.bufs[(size_t) bi];
                 if (b.st != LIVE || b.usable != b.req || b.req < 1) { c.count("op_skipped_buffer_no_longer_usable"); break; }
                 w.verify_buf(bi, "before its release");
@@ -720,11 +856,14 @@ struct Exec {
             }
             case 'F': {
                 c.count("op_release_foreign");
+                arm(o, "warning-print", -1);
                 release(foreign[o.a], (size_t) o.b, 2, o.a < 5 ? "foreign-heap" : o.a == 5 ? "foreign-static" : "foreign-stack", std::string(foreign[o.a]));
+                disarm();
                 break;
             }
             case 'I': {
                 int bi = idx_of[(size_t) o.a];
+                if (bi < 0) { c.count("op_skipped_nested_request_did_not_happen"); break; }
                 Buf b = w.bufs[(size_t) bi];
                 if (b.st != LIVE || b.usable != b.req || (size_t) o.b >= b.req) { c.count("op_skipped_buffer_no_longer_usable"); break; }
                 w.verify_buf(bi, "before an interior-pointer release");
@@ -735,6 +874,7 @@ struct Exec {
             }
             case 'S': {
                 int bi = idx_of[(size_t) o.a];
+                if (bi < 0) { c.count("op_skipped_nested_request_did_not_happen"); break; }
                 Buf b = w.bufs[(size_t) bi];
                 if (b.st != RELEASED || b.usable != b.req || b.req < 1) { c.count("op_skipped_stale_buffer_reissued_or_returned"); break; }
                 c.count("op_release_again");
@@ -774,6 +914,7 @@ struct Exec {
             }
         }
         // ending
+        w.nest = Nest();
         if (s.global) {
             w.verify_all("before the destruction of the global cache");
             measure();
@@ -800,15 +941,8 @@ struct Exec {
             for (int bi : order) {
                 Buf b = w.bufs[(size_t) bi];
                 if (b.st != LIVE) continue;
-                w.verify_buf(bi, "before its release");
-                int pos = w.used_pos(bi);
-                const char* shape = b.cls == 5 ? "uncached" : pos == 0 ? "head-of-used-list" : "interior-of-used-list";
-                { auto it = w.live_iv.find((uintptr_t) b.p); if (it != w.live_iv.end() && it->second == bi) w.live_iv.erase(it); }
-                w.drop_from_used(bi);
-                w.bufs[(size_t) bi].st = RELEASED;
-                if (pos > 0) c.count(std::string("release_interior_class_") + CLS[b.cls]); else c.count(std::string("release_head_class_") + CLS[b.cls]);
-                c.count("op_release_true_size");
-                release(b.p, b.req, 0, shape, "");
+                w.nest = Nest();
+                release_live(bi, b.req, true, false, false);
             }
             size_t o0 = out_len();
             w.op = "clearCache";
@@ -862,6 +996,22 @@ struct Exec {
 static Exec* g_exec = nullptr;
 static void fixture_body() { g_exec->run(); }
 
+// called from the underlying allocator's callbacks and from the output sinks: issues the nested operation of the running
+// top-level operation when its callback has come
+static void nest_hook(char cb) {
+    World* w = W;
+    if (!w || !w->nest.armed || w->nest.running || !g_exec) return;
+    int ord = w->nest.seen++;
+    if (ord != w->nest.op->nat) return;
+    w->nest.armed = false; w->nest.fired = true; w->nest.running = true;
+    if (cb == 'p') { w->warning_in_progress = 1; w->nest.tag = "warning-print"; }    // whatever the top-level operation was: the cache is printing its warning
+    size_t o0 = out_len();
+    g_exec->run_nested(*w->nest.op, cb);
+    w->nest.out_bytes = out_len() - o0;
+    w->warning_in_progress = 0;
+    w->nest.running = false;
+}
+
 static void run_script(vf::Ctx& c, const Script& s, const std::string& sig_prefix) {
     c.begin([&s] { return s.json(); });
     World w(&c); W = &w;
@@ -871,7 +1021,26 @@ static void run_script(vf::Ctx& c, const Script& s, const std::string& sig_prefi
     g_cap.clear(); g_fx = nullptr;
     {
         Exec ex(w, s); g_exec = &ex;
-        if (s.fixture) {
+        w.rec.poison = !s.reentrant;
+        if (s.fixture && s.reentrant) {
+            // a test run of the harness's own: same as the fixture, but the output can call back into the cache while it prints
+            HookOutput out; g_hook_out = &out;
+            {
+                TestResult res(out);
+                TestRegistry reg;
+                ExecFunctionTestShell shell;
+                ExecFunctionWithoutParameters fn(fixture_body);
+                shell.testFunction_ = &fn;
+                reg.setCurrentRegistry(&reg);
+                reg.addTest(&shell);
+                reg.runAllTests(res);
+                reg.setCurrentRegistry(NULLPTR);
+                if (res.getFailureCount() != 0) w.viol("fixture-test-failed", "the history recorded a test failure: " + std::string(out.getOutput().asCharString()).substr(0, 300));
+            }
+            if (!g_cap.empty()) c.count("console_output_while_in_fixture");
+            g_hook_out = nullptr;
+            c.count("histories_inside_a_test_run");
+        } else if (s.fixture) {
             TestTestingFixture fx;
             g_fx = &fx;
             fx.setTestFunction(fixture_body);
@@ -898,6 +1067,162 @@ static void run_script(vf::Ctx& c, const Script& s, const std::string& sig_prefi
 static void sec_histories(vf::Ctx& c) {
     Script s = gen_history(c.rng, c.thorough);
     run_script(c, s, "");
+}
+
+// ---------------------------------------------------------------- re-entrant histories
+// The cache calls out at these points: alloc on a miss (two alloc callbacks: header, buffer), alloc of an uncached size (two alloc
+// callbacks), release of an uncached buffer (two free callbacks: buffer, header), the first release of an unknown buffer (one
+// print). (clearCache / clearAll / destruction also call free callbacks; a request that arrives in the middle of a clear is
+// neither before nor after "the cache is cleared", the statement gives it no meaning: not generated.) The generator keeps an exact
+// model of the free lists (no wrong-class releases here), so it knows which operations reach a callback.
+struct RGen {
+    vf::Rng& r;
+    std::vector<GBuf> g; std::vector<int> live;   // live: in order of allocation
+    int freec[5] = { 0, 0, 0, 0, 0 };
+    bool warned = false;
+    std::vector<int> focus;
+    explicit RGen(vf::Rng& r_) : r(r_) {}
+    int new_buf(int sz) { g.push_back({ sz, class_of((size_t) sz), 0 }); live.push_back((int) g.size() - 1); return (int) g.size() - 1; }
+    bool is_miss(int sz) { int c = class_of((size_t) sz); return c == 5 || freec[c] == 0; }
+    void apply_alloc(int sz) { int c = class_of((size_t) sz); if (c < 5 && freec[c] > 0) freec[c]--; new_buf(sz); }
+    void apply_release(int idx) {
+        GBuf& b = g[(size_t) idx]; b.st = 2; if (b.cls < 5) freec[b.cls]++;
+        for (size_t i = 0; i < live.size(); i++) if (live[i] == idx) { live.erase(live.begin() + (long) i); break; }
+    }
+    void clear_cache() { for (GBuf& b : g) if (b.st == 2) b.st = 3; for (int i = 0; i < 5; i++) freec[i] = 0; }
+    void clear_all() { for (GBuf& b : g) b.st = 3; live.clear(); for (int i = 0; i < 5; i++) freec[i] = 0; }
+    // the nested operation of a top-level operation that works on list `ocls` (-1: none) and on buffer `self` (-1: none) and reaches
+    // `ncb` callbacks; its effect on the model is applied here, i.e. BEFORE the effect of the top-level operation
+    void nest(Op& o, int ocls, int self, int ncb) {
+        o.nat = ncb > 1 ? (int) r.below(2) : 0;
+        std::vector<int> same, other;
+        for (int i : live) if (i != self) (g[(size_t) i].cls == ocls ? same : other).push_back(i);
+        int x = (int) r.below(100);
+        if (x >= 50 && x < 75 && same.empty()) x = 0;
+        if (x >= 75 && x < 90 && other.empty()) x = 40;
+        if (x < 35 && ocls < 0) x = 40;
+        if (x < 35) { o.nk = 'A'; o.na = size_in_class(r, ocls); }
+        else if (x < 50) { o.nk = 'A'; o.na = pick_size(r, focus); }
+        else if (x < 75) { o.nk = 'R'; size_t k = r.chance(40) ? same.size() - 1 : r.chance(30) ? 0 : r.below(same.size()); o.na = same[k]; }
+        else if (x < 90) { o.nk = 'R'; o.na = other[r.below(other.size())]; }
+        else { o.nk = 'F'; o.na = (int) r.below(N_FOREIGN); o.nb = pick_size(r, focus); }
+        if (o.nk == 'A') apply_alloc(o.na);
+        else if (o.nk == 'R') apply_release(o.na);
+        else warned = true;
+    }
+};
+
+static Script gen_reentrant(vf::Rng& r, bool thorough) {
+    Script s; s.reentrant = true;
+    s.adaptor = r.chance(30);
+    s.fixture = r.chance(40);
+    RGen G(r);
+    int nops = r.chance(30) ? r.range(6, 25) : r.range(20, thorough ? 200 : 120);
+    if (r.chance(75)) { int k = r.chance(60) ? 1 : 2; for (int i = 0; i < k; i++) G.focus.push_back(r.chance(45) ? 5 : (int) r.below(5)); }
+    int max_live = r.range(3, 14);
+    int p_nest = r.chance(20) ? 100 : r.range(30, 80);
+    bool grow = true; int phase_left = r.range(4, 25);
+    for (int n = 0; n < nops; n++) {
+        if (--phase_left <= 0) { grow = !grow; phase_left = r.range(4, 25); }
+        int x = (int) r.below(1000);
+        if (x < 12) { s.ops.push_back({ 'C', 0, 0, 0 }); G.clear_cache(); continue; }
+        if (x < 18) { s.ops.push_back({ 'K', 0, 0, 0 }); G.clear_all(); continue; }
+        if (x < 40) { s.ops.push_back({ 'V', 0, 0, 0 }); continue; }
+        if (x < 50) { s.ops.push_back({ 'Q', pick_size(r, G.focus), 0, 0 }); continue; }
+        if (x < 100) {
+            Op o = { 'F', (int) r.below(N_FOREIGN), pick_size(r, G.focus), 0 };
+            if (!G.warned && r.chance(75)) G.nest(o, -1, -1, 1);
+            G.warned = true;
+            s.ops.push_back(o);
+            continue;
+        }
+        bool do_alloc = G.live.empty() || ((int) G.live.size() < max_live && r.chance(grow ? 68 : 32));
+        if (do_alloc) {
+            int sz = pick_size(r, G.focus);
+            Op o = { 'A', sz, 0, 0 };
+            if (G.is_miss(sz) && r.chance(p_nest)) { G.nest(o, class_of((size_t) sz), -1, 2); G.new_buf(sz); }
+            else G.apply_alloc(sz);
+            s.ops.push_back(o);
+            continue;
+        }
+        size_t li;
+        switch (r.below(5)) { case 0: case 1: li = G.live.size() - 1; break; case 2: li = 0; break; default: li = r.below(G.live.size()); }
+        int idx = G.live[li]; GBuf b = G.g[(size_t) idx];
+        Op o = { 'R', idx, 0, 0 };
+        if (b.cls < 5 && r.chance(25)) { int sz = size_in_class(r, b.cls); if (sz != b.req) { o.k = 'W'; o.b = sz; } }
+        if (b.cls == 5 && r.chance(p_nest)) G.nest(o, 5, idx, 2);
+        G.apply_release(idx);
+        s.ops.push_back(o);
+    }
+    int e = (int) r.below(100);
+    s.ending = e < 45 ? 0 : e < 92 ? 1 : 2;
+    return s;
+}
+static void sec_reentrant(vf::Ctx& c) {
+    Script s = gen_reentrant(c.rng, c.thorough);
+    run_script(c, s, "re:");
+    c.count("reentrant_histories");
+}
+
+// every position x kind of nested operation x interface x output, in a fixed history shape: three buffers on the list the
+// top-level operation works on, two on another cached list, two uncached (or cached) ones, one class with a free block; then the
+// top-level operation with its nested operation; then the buffers they produced are released, the class is used again, an
+// unknown buffer is released, and the usual ending.
+static const char* RM_OUTER[9] = { "alloc(miss,class 32)", "alloc(miss,class 64)", "alloc(miss,class 96)", "alloc(miss,class 128)", "alloc(miss,class 256)", "alloc(uncached)", "dealloc(newest uncached)", "dealloc(older uncached)", "dealloc(unknown): print" };
+static const char* RM_NESTED[8] = { "request,same list", "request,other class (miss)", "request,uncached", "release,same list,newest", "release,same list,older", "release,other list", "release,unknown buffer", "request,other class (hit)" };
+static const uint64_t RM_N = 9 * 2 * 8 * 2 * 2;
+static void sec_rmatrix(vf::Ctx& c) {
+    uint64_t k = c.idx;
+    int nested = (int) (k % 8); k /= 8;
+    int outer = (int) (k % 9); k /= 9;
+    int nat = (int) (k % 2); k /= 2;
+    int via = (int) (k % 2); k /= 2;
+    int outp = (int) (k % 2);
+    vf::Rng& r = c.rng;
+    Script s; s.reentrant = true; s.adaptor = via == 1; s.fixture = outp == 1;
+    int cls = outer < 5 ? outer : outer == 8 ? 0 : 5;
+    int o1 = cls < 5 ? (cls + 2) % 5 : 1;          // another cached class with buffers in use
+    int o2 = cls < 5 ? (cls + 3) % 5 : 3;          // a cached class with one free block
+    int nb = 0;
+    auto A = [&](int sz) { s.ops.push_back({ 'A', sz, 0, 0 }); return nb++; };
+    int same0 = A(size_in_class(r, cls)), same1 = A(size_in_class(r, cls)), same2 = A(size_in_class(r, cls));
+    int oth0 = A(size_in_class(r, o1)); A(size_in_class(r, o1));
+    int unc0 = A(cls < 5 ? r.range(257, 600) : size_in_class(r, 3)); A(cls < 5 ? r.range(257, 600) : size_in_class(r, 3));
+    int fr = A(size_in_class(r, o2)); s.ops.push_back({ 'R', fr, 0, 0 });
+    Op o = { 'A', 0, 0, 0 };
+    int self = -1;
+    if (outer <= 5) o.a = size_in_class(r, cls);
+    else if (outer == 6) { o.k = 'R'; o.a = self = same2; }
+    else if (outer == 7) { o.k = 'R'; o.a = self = same1; }
+    else { o.k = 'F'; o.a = (int) r.below(N_FOREIGN); o.b = r.range(1, 400); }
+    o.nat = outer == 8 ? 0 : nat;
+    int newest = self == same2 ? same1 : same2, older = self == same1 ? same0 : same1;
+    switch (nested) {
+    case 0: o.nk = 'A'; o.na = size_in_class(r, cls); break;
+    case 1: { int x = 0; while (x == cls || x == o2) x++; o.nk = 'A'; o.na = size_in_class(r, x); break; }
+    case 2: o.nk = 'A'; o.na = r.range(257, 1024); break;
+    case 3: o.nk = 'R'; o.na = newest; break;
+    case 4: o.nk = 'R'; o.na = older; break;
+    case 5: o.nk = 'R'; o.na = r.chance(50) ? oth0 : unc0; break;
+    case 6: o.nk = 'F'; o.na = (int) r.below(N_FOREIGN); o.nb = r.range(1, 400); break;
+    default: o.nk = 'A'; o.na = size_in_class(r, o2); break;
+    }
+    int born = -1, mine = -1;
+    if (o.nk == 'A') born = nb++;
+    s.ops.push_back(o);
+    if (o.k == 'A') mine = nb++;
+    s.ops.push_back({ 'V', 0, 0, 0 });
+    if (born >= 0) s.ops.push_back({ 'R', born, 0, 0 });
+    if (mine >= 0 && r.chance(50)) s.ops.push_back({ 'R', mine, 0, 0 });
+    A(size_in_class(r, cls)); int again = A(size_in_class(r, cls));
+    s.ops.push_back({ 'R', again, 0, 0 });
+    if (self != same0 && !(o.nk == 'R' && o.na == same0)) s.ops.push_back({ 'R', same0, 0, 0 });
+    s.ops.push_back({ 'V', 0, 0, 0 });
+    s.ops.push_back({ 'F', (int) r.below(N_FOREIGN), r.range(1, 400), 0 });
+    s.ending = (int) ((c.idx / 8) % 2);
+    s.summary.clear();
+    run_script(c, s, std::string("rm:") + RM_OUTER[outer] + "/" + RM_NESTED[nested] + ":");
+    c.count("reentrant_matrix_cases");
 }
 
 // ---------------------------------------------------------------- exhaustive: every request size, fixed history shape
@@ -1214,6 +1539,8 @@ int main(int argc, char** argv) {
         { "histories", 30000, 400000, sec_histories, false },
         { "global_cache_traffic", 8000, 100000, sec_global, false },
         { "long_lists", 96, 720, sec_long, false },
+        { "reentrant_matrix", RM_N, RM_N, sec_rmatrix, true },
+        { "reentrant_histories", 10000, 150000, sec_reentrant, false },
     };
     return vf::harness_main(argc, argv, S, init);
 }
